@@ -14,7 +14,10 @@ RULE = ("generated: programs of 3-40 statements inside D9 (double/single-operand
         "of k*label, label*k, '.', constants (so base coefficients -2..3 occur: label, label+k, label-label2, 2*a-b, -a, constants as "
         "relative targets), with the set of absolute references known by construction; each program assembled at a triple of link bases "
         "via a prepended '.link b' (even, mixed parity, near 0, near 0o177776 incl. wrap where a label >= 2^16 makes an absolute word fail). "
-        "Oracle (model-free, judged in Coq): word-wise differences of every pair of successful images are exactly coefficient*delta at "
+        "Also programs with 1-2 included files (impl.assemble fs=): ordinary includes, whose labels move with the main base, and overlays whose "
+        "first statement is '. = N' or '.link N' (N well above and below the main bases), whose labels are fixed; absolute and relative "
+        "references in both directions between main and included code through exported labels; these are judged by the law alone and must "
+        "assemble at every base where they fit. Oracle (model-free, judged in Coq): word-wise differences of every pair of successful images are exactly coefficient*delta at "
         "exactly the known absolute words, every other byte identical. Correspondence: Model/Reloc image = implementation's image or error "
         "class at every base, model abs_words = list by construction. Also random operation sequences on real LinearPolynomial/Promise "
         "objects replayed on Model/Poly.v. non-trivial = distinct program with >= 1 address-valued field and >= 2 successful bases")
@@ -431,12 +434,174 @@ def run_cases(rep, cases, tag):
                         "Run.C09Run.law_all): " + str(why), {**files, "abs_by_construction": c["aw"]}, impl=obs, oracle="Run.C09Run.law_all")
 
 
+# ---- programs with included files: ordinary includes move with the main base, overlays (first statement `. = N`
+#      or `.link N`) sit at fixed addresses; judged by the law alone (Model/Reloc has no notion of a second origin)
+def make_inc_case(rng):
+    regions = [("main", None)]
+    for _ in range(rng.choice([1, 1, 2])):
+        kind = rng.choice(["plain", "ovl-dot", "ovl-link"])
+        regions += [(kind, rng.choice([0o40000, 0o100, 0o160000, 0o20, 0o100000])), ("main", None)]
+    labels = []          # (name, coefficient of the main base)
+    for ri, (kind, _) in enumerate(regions):
+        for j in range(rng.randint(1, 3)):
+            labels.append(("%s%dx%d" % ("m" if kind == "main" else "v", ri, j), 0 if kind.startswith("ovl") else 1, ri))
+    texts, aw, off = [], [], 0
+
+    def expr(ri):
+        r = rng.random()
+        pick = lambda: rng.choice(labels)
+        if r < 0.45:
+            ls = [(1, pick())]
+        elif r < 0.6:
+            ls = [(1, pick()), (-1, pick())]
+        elif r < 0.7:
+            # three labels only of the same kind (all relocatable or all of one overlay), so that the value fits
+            a = pick()
+            same = [l for l in labels if l[1] == a[1] and (a[1] == 1 or l[2] == a[2])]
+            ls = [(1, a), (1, rng.choice(same)), (-1, rng.choice(same))]
+        else:
+            ls = [(1, pick())]
+        k = rng.choice([0, 0, 2, 4, 0o10, -2])
+        txt = "".join(("+" if (sg > 0 and n) else ("-" if sg < 0 else "")) + l[0] for n, (sg, l) in enumerate(ls))
+        if ls[0][0] < 0:
+            txt = "0" + txt
+        if k:
+            txt += ("+%o" % k) if k > 0 else ("-%o" % -k)
+        return txt, sum(sg * l[1] for sg, l in ls)
+
+    for ri, (kind, N) in enumerate(regions):
+        pc = 0 if kind.startswith("ovl") else 1
+        lines = []
+        if kind == "ovl-dot":
+            lines.append("\t. = %o" % N)
+        elif kind == "ovl-link":
+            lines.append("\t.link %o" % N)
+        mine = [l for l in labels if l[2] == ri]
+        nst = rng.randint(2, 7)
+        slots = sorted(rng.randrange(nst + 1) for _ in mine)
+        lab_at = {}
+        for l, sl in zip(mine, slots):
+            lab_at.setdefault(sl, []).append(l)
+        placed = []        # (label, offset) for backward branches inside the region
+        for k in range(nst + 1):
+            for l in lab_at.get(k, []):
+                lines.append(l[0] + "::")
+                placed.append((l, off))
+            if k == nst:
+                break
+            r = rng.random()
+            if r < 0.5:
+                ops, exts = [], []
+                for _ in range(2):
+                    m = rng.random()
+                    n = rng.randrange(6)
+                    if m < 0.2:
+                        ops.append("r%d" % n)
+                    elif m < 0.3:
+                        ops.append("(r%d)+" % n)
+                    else:
+                        t, tc = expr(ri)
+                        form = rng.choice(["#", "@#", "", "@", "idx"])
+                        if form == "idx":
+                            if not t[0].isalpha():
+                                t = mine[0][0] + "+" + t
+                                tc += mine[0][1]
+                            ops.append("%s(r%d)" % (t, n)); exts.append(tc)
+                        elif form in ("#", "@#"):
+                            ops.append(form + t); exts.append(tc)
+                        else:
+                            if not t[0].isalpha():
+                                t = mine[0][0] + "+" + t
+                                tc += mine[0][1]
+                            ops.append(form + t); exts.append(tc - pc)
+                lines.append("\t%s %s, %s" % (rng.choice(["mov", "add", "cmp", "bis"]), ops[0], ops[1]))
+                off += 2
+                for c in exts:
+                    if c:
+                        aw.append((off, c))
+                    off += 2
+            elif r < 0.7:
+                es = [expr(ri) for _ in range(rng.choice([1, 2, 3]))]
+                lines.append("\t.word " + ", ".join(t for t, _ in es))
+                for _, c in es:
+                    if c:
+                        aw.append((off, c))
+                    off += 2
+            elif r < 0.85 and placed:
+                l, lo = rng.choice(placed)
+                if off + 2 - lo <= 254:
+                    lines.append("\t%s %s" % (rng.choice(list(BRANCH)), l[0]))
+                else:
+                    lines.append("\tnop")
+                off += 2
+            else:
+                lines.append("\tnop")
+                off += 2
+        texts.append((kind, "\n".join(lines) + "\n"))
+    main, fs, ninc = "", {}, 0
+    for kind, t in texts:
+        if kind == "main":
+            main += t
+        else:
+            fs["inc%d.mac" % ninc] = t
+            main += '\t.include "inc%d.mac"\n' % ninc
+            ninc += 1
+    pool = [0o1000, 0o2000, 0o3000, 0o20000, 0o60000, 0o120000, 0o400, 0o170000 - (off & ~1)]
+    bases = [b & ~1 for b in rng.sample(pool, 3)]
+    return {"bases": bases, "main": main, "fs": fs, "aw": aw, "total": off, "last": [rng.random() < 0.3 for _ in bases],
+            "kinds": sorted({k for k, _ in regions})}
+
+
+def inc_files(c, b, last):
+    return [("main.mac", ("%s\t.link %o\n" % (c["main"], b)) if last else (".link %o\n%s" % (b, c["main"])))]
+
+
+def run_inc_cases(rep, cases, tag):
+    jobs = [((inc_files(c, b, last),), {"fs": c["fs"]}) for c in cases for b, last in zip(c["bases"], c["last"])]
+    outs = impl.pmap("assemble", jobs)
+    terms = []
+    for n, c in enumerate(cases):
+        c["outs"] = outs[3 * n:3 * n + 3]
+        obs = "[" + "; ".join("(%d, %s)" % (b, obs_term(o)) for b, o in zip(c["bases"], c["outs"])) + "]"
+        awt = "[" + "; ".join("(%d, %s)" % (o, C.zlit(k)) for o, k in c["aw"]) + "]"
+        terms.append("((%s, %s) : law_case)" % (awt, obs))
+    codes = C.run_case_files(ID + tag, "Base.Res Model.Poly Model.Reloc Run.C09Run", "Open Scope string_scope.\nOpen Scope Z_scope.",
+                             C.shard(terms, 80), judge_expr="map judge_law cases")
+    flat = [x for sh in codes for x in sh]
+    for c, code in zip(cases, flat):
+        rep.add_eval(3)
+        rep.count("include:" + "+".join(c["kinds"]))
+        oks = [(b, list(bytes.fromhex(o["code"]))) for b, o in zip(c["bases"], c["outs"]) if o["outcome"] == "ok"]
+        rep.count("include-bases-ok:%d" % len(oks))
+        if len(oks) >= 2 and c["aw"]:
+            rep.nontrivial(c["main"] + str(sorted(c["fs"].items())))
+        inp = {"main": c["main"], "fs": c["fs"], "bases": c["bases"], "link_last": c["last"], "abs_by_construction": c["aw"]}
+        obs = [{"base": b, "outcome": o["outcome"], "code": o.get("code"),
+                "errors": sorted({d[1] for d in o["diags"] if d[0] != "warning"}), "crash": o.get("crash")} for b, o in zip(c["bases"], c["outs"])]
+        if any(o["outcome"] in ("crash", "hang", "harness-error") for o in c["outs"]):
+            rep.violate("crash-include:" + str([o.get("crash") for o in c["outs"]])[:80], "the assembler crashed or hung", inp, impl=obs)
+        elif len(oks) < 3:
+            # by construction everything fits at all three bases (even addresses, base + size < 2^16, near branches)
+            rep.violate("include-rejected:" + "+".join(c["kinds"]), "a program with included files that fits at this link base was rejected "
+                        "(it assembles wherever its addresses fit, so that its images can be compared at all)", inp, impl=obs)
+        elif code & 2:
+            why = None
+            for x in range(len(oks)):
+                for y in range(x + 1, len(oks)):
+                    why = why or py_law(c["aw"], oks[x][0], oks[x][1], oks[y][0], oks[y][1])
+            rep.violate("law-include:" + "+".join(c["kinds"]), "two images of a program with included files break the relocation law (judged in Coq: "
+                        "Run.C09Run.law_all): " + str(why), inp, impl=obs, oracle="Run.C09Run.law_all")
+
+
 def explore(rep, br, tier, seed):
     rng = random.Random(seed)
     polycorr.run(rep, ID, random.Random(seed + 9), 250 if tier == "quick" else 4000)
     n = 360 if tier == "quick" else 4000
     cases = [make_case(rng) for _ in range(n)]
     run_cases(rep, cases, "")
+    inc = [make_inc_case(rng) for _ in range(120 if tier == "quick" else 1500)]
+    run_inc_cases(rep, inc, "_inc")
+    rep.sample({"bases": inc[0]["bases"], "main": inc[0]["main"][:300], "included": {k: v[:200] for k, v in inc[0]["fs"].items()}})
     for c in cases[:3]:
         rep.sample({"bases": c["bases"], "source": c["body"][:300], "abs_words": c["aw"][:6],
                     "outcomes": [o["outcome"] for o in c["outs"]]})
@@ -448,12 +613,28 @@ def search(rep, br, tier, seed):
     sub = C.Report(ID, tier, seed)
     cases = [make_case(rng) for _ in range(900 if tier == "quick" else 3000)]
     run_cases(sub, cases, "_search")
+    run_inc_cases(sub, [make_inc_case(rng) for _ in range(300)], "_search_inc")
     rep.violations += sub.violations
     rep.evaluations += sub.evaluations
 
 
 def replay(data):
     inp = data.get("input", {})
+    if "main" in inp:
+        aw = [tuple(x) for x in inp.get("abs_by_construction", [])]
+        res = []
+        for b, last in zip(inp["bases"], inp.get("link_last", [False] * 3)):
+            o = impl.assemble(inc_files(inp, b, last), fs=inp["fs"])
+            print("base %o:" % b, o["outcome"], o.get("code"), sorted({d[1] for d in o["diags"] if d[0] != "warning"}))
+            res.append((b, o))
+        oks = [(b, list(bytes.fromhex(o["code"]))) for b, o in res if o["outcome"] == "ok"]
+        bad = "rejected at some base" if len(oks) < len(res) else None
+        for x in range(len(oks)):
+            for y in range(x + 1, len(oks)):
+                bad = bad or py_law(aw, oks[x][0], oks[x][1], oks[y][0], oks[y][1])
+        if bad:
+            print("law broken:", bad)
+        return bad is None
     if "body" not in inp:
         print("no source in this replay record")
         return False
